@@ -33,6 +33,7 @@ var (
 	flagWTmp   = flag.String("wtmp", "", "internal: worker temp dir")
 	flagProcs  = flag.Int("procs", 0, "worker processes (0 = one per core, max 16)")
 	flagBudget = flag.Duration("budget", 0, "internal deadline (0 = tier default)")
+	flagDebugLeak = flag.Bool("debug-leak", false, "debug: count inotify instances of a Core")
 	flagOnly   = flag.String("only", "", "debug: only cases whose label contains this text")
 )
 
@@ -144,6 +145,10 @@ func main() {
 	flag.Parse()
 	if *flagWorker >= 0 {
 		workerMain(*flagWorker, *flagWTmp)
+		return
+	}
+	if *flagDebugLeak {
+		debugLeak()
 		return
 	}
 	r := vcommon.Start("C13", "model_checking")
@@ -297,7 +302,7 @@ func main() {
 	// a Core that fails to start leaks the watchers of the certificate loaders created before the failure:
 	// the worker that saw it is replaced
 	pool.Recycle = func(raw json.RawMessage) bool {
-		return strings.Contains(string(raw), `"skip":`) || strings.Contains(string(raw), `"env":`)
+		return strings.Contains(string(raw), `"skip":`) || strings.Contains(string(raw), `"env":`) || strings.Contains(string(raw), `"failure":`)
 	}
 	defer pool.Close()
 	fail := func(format string, a ...any) {
@@ -350,7 +355,7 @@ func main() {
 			out[i] = &cr
 		}
 		// a Core start refused by the machine (limits shared with other processes) is not an observation
-		for round := 0; round < 4; round++ {
+		for round := 0; round < 8; round++ {
 			var idx []int
 			var again []any
 			for i, cr := range out {
@@ -363,8 +368,13 @@ func main() {
 				break
 			}
 			envRetries += len(idx)
-			time.Sleep(time.Duration(200*(round+1)) * time.Millisecond)
-			for k, pr := range pool.Run(again) {
+			time.Sleep(time.Duration(250*(round+1)) * time.Millisecond)
+			// two at a time: fewer Cores alive while the machine is short of inotify instances
+			var prs []c12lib.Result
+			for lo := 0; lo < len(again); lo += 2 {
+				prs = append(prs, pool.Run(again[lo:min(lo+2, len(again))])...)
+			}
+			for k, pr := range prs {
 				var cr CaseResult
 				if pr.Crash != "" {
 					cr = CaseResult{Failure: "the process died: " + lastChars(pr.Crash, 2500)}
@@ -377,7 +387,7 @@ func main() {
 		}
 		for i, cr := range out {
 			if cr.Env != "" {
-				fail("case %s: %s (4 attempts)", list[i].label, cr.Env)
+				fail("case %s: %s (9 attempts)", list[i].label, cr.Env)
 			}
 		}
 		return out
@@ -409,7 +419,26 @@ func main() {
 		ci        *caseInfo
 	}
 	var findings []finding
-	singleNotApplied := map[string]map[string]bool{} // delta name -> set of "comp.field" not applied
+	singleNotApplied := map[string]map[string]string{} // delta name -> "comp.field" not applied -> parameter it is attributed to
+	// consumed[component] = the parameters that, changed alone from the base, change the component's observation in a
+	// fresh Core or its presence (learned from the forward single changes): recreating a component when one of the
+	// parameters it consumes changes is accepted even if the derived value happens to be the same
+	consumed := map[string]map[string]bool{}
+	for _, o := range done {
+		if o.ci.kind != "single" || o.ci.base != "all-enabled" || o.res.Skip != "" || o.res.Failure != "" {
+			continue
+		}
+		for _, c := range o.res.Comps {
+			if c.P0 != c.PF || c.Sig0 != c.SigF {
+				if consumed[c.Name] == nil {
+					consumed[c.Name] = map[string]bool{}
+				}
+				for _, p := range o.ci.params {
+					consumed[c.Name][p] = true
+				}
+			}
+		}
+	}
 	skipped, failed := 0, 0
 	skipReasons := map[string]string{}
 	states := map[string]bool{}
@@ -455,23 +484,19 @@ func main() {
 				d := c.Diff[f]
 				param := attribute(ci, d[1])
 				cf := c.Name + "." + f
-				if ci.kind != "single" && ci.kind != "reverse" {
-					// already explained by one of the single changes?
-					expl := ""
-					for _, n := range ci.names {
-						if singleNotApplied[n][cf] {
-							expl = n
-						}
+				// the same field already seen stale with one of the changes alone (forward direction): same cause, same key
+				known := false
+				for _, n := range ci.names {
+					if p, ok := singleNotApplied[n][cf]; ok {
+						param, known = p, true
 					}
-					if expl != "" {
-						param = expl
-					}
-				} else if record {
+				}
+				if !known && ci.kind == "single" && record {
 					for _, n := range ci.names {
 						if singleNotApplied[n] == nil {
-							singleNotApplied[n] = map[string]bool{}
+							singleNotApplied[n] = map[string]string{}
 						}
-						singleNotApplied[n][cf] = true
+						singleNotApplied[n][cf] = param
 					}
 				}
 				fs = append(fs, finding{fmt.Sprintf("not-applied:%s->%s", param, strings.ReplaceAll(cf, " ", ":")),
@@ -486,8 +511,15 @@ func main() {
 			// (3) identity
 			if !ci.noIdentity && c.P0 && c.P1 && !c.Same && c.PF {
 				legit := c.Sig0 != c.SigF || (loggerRecreated && c.Name != "logger")
+				for _, p := range ci.params {
+					if consumed[c.Name][p] {
+						legit = true
+					}
+				}
 				for _, t := range c.Refs0 {
-					if recreated(t) {
+					// a component is built from components created before it (order of the fields of Core); references in the
+					// other direction are registrations made afterwards (metrics -> servers, path manager -> HLS server)
+					if tc := comps[t]; tc != nil && tc.Order < c.Order && recreated(t) {
 						legit = true
 					}
 				}
@@ -498,6 +530,12 @@ func main() {
 							needless[k] = map[string][]*caseInfo{}
 						}
 						dn := strings.Join(ci.names, ",")
+						for _, n := range ci.names {
+							// already seen with one of the changes alone: same cause
+							if len(ci.names) > 1 && len(needless[k][n]) > 0 {
+								dn = n
+							}
+						}
 						needless[k][dn] = append(needless[k][dn], ci)
 					} else {
 						fs = append(fs, finding{"needless-recreate:" + c.Name, ci.label, ci})
